@@ -1398,6 +1398,7 @@ class HubSyncGate:
         self.pending = {}
         self.listed = {}
         self.lock_holder = None
+        self.blocked = set()
         self.trace = []
         self.step = 0
 
@@ -1436,7 +1437,7 @@ class HubSyncGate:
             live = [i for i in self.gates if i in self.pending]
             if not live:
                 break
-            enabled = [i for i in live if not (self.pending[i]["op"] == "flock" and self.lock_holder not in (None, i))]
+            enabled = [i for i in live if not (self.pending[i]["op"] == "flock" and i in self.blocked)]
             if not enabled:
                 raise Inconclusive("all servers blocked")
             choice = self.policy(self, enabled)
@@ -1474,6 +1475,7 @@ class HubSyncGate:
             self.gates[i].close()
             del self.gates[i]
             self.pending.pop(i, None)
+            self.blocked = set()
             if self.lock_holder == i:
                 self.lock_holder = None
             return
@@ -1490,8 +1492,10 @@ class HubSyncGate:
         parts = line.decode().split(" ")
         if parts[0] == "BLOCKED":
             self.trace.append((self.step, i, "flock BLOCKED"))
+            self.blocked.add(i)
             self.await_req(i)
             return
+        self.blocked = set()
         ret = int(parts[2])
         if pend["op"] == "flock" and ret == 0:
             self.lock_holder = i
